@@ -12,7 +12,9 @@ const (
 	kb = 1024
 )
 
-func scenarios(r *vh.Run) []Scenario {
+// wait = the bounded wait of closeWithError as measured on the compiled code under virtual time (compared with
+// C03_closeWaitIterations x C03_closeWaitTickNs of Consts.v by the W cases)
+func scenarios(r *vh.Run, wait time.Duration) []Scenario {
 	var out []Scenario
 	seed := r.Seed * 1000
 	add := func(sc Scenario) {
@@ -193,6 +195,38 @@ func scenarios(r *vh.Run) []Scenario {
 		add(Scenario{Name: "backlog6000-slow", Transport: "tcp", Closer: "client", N: 6000 * 16, Writes: 6000, WriteSize: 16, ReadAfterClose: true, ReadPause: 1 * ms})
 		add(Scenario{Name: "backlog6000-slow", Transport: "tcp", Closer: "server", N: 6000 * 8, Writes: 6000, WriteSize: 8, ReadAfterClose: true, ReadPause: 1 * ms})
 		add(Scenario{Name: "backlog4400-cap", Transport: "tcp", Closer: "server", N: 4400 * 16, Writes: 4400, WriteSize: 16, ReadAfterClose: true, ReadStall: 2 * time.Second, TCPCap: 1 * kb})
+	}
+
+	// ---- G. TCP write stall on the closer's connection around the close: the first 2000 bytes go out, then the connection accepts
+	// nothing for D (below, at and above the bounded wait of closeWithError: iterations x tick from the source tree), k further
+	// Writes are issued, Close is called at several points of the stall, the stall ends, the peer reads normally or slowly.
+	type st struct {
+		cl      string
+		d       time.Duration
+		k, size int
+		at      time.Duration
+		pause   time.Duration
+	}
+	var sts []st
+	if thorough {
+		for _, cl := range closers {
+			for _, d := range []time.Duration{wait / 2, wait - ms, wait, wait + ms, wait + 20*ms, wait * 3 / 2, 2 * wait, 5 * wait} {
+				for _, k := range []int{1, 2, 8} {
+					for _, at := range []time.Duration{0, 300 * ms, d - 10*ms} {
+						sts = append(sts, st{cl, d, k, 20000, at, 0})
+					}
+				}
+				sts = append(sts, st{cl, d, 1, 40000, 0, 0}, st{cl, d, 3, 20000, 0, 5 * ms}, st{cl, d, 2, 100, 100 * ms, 0})
+			}
+		}
+	} else {
+		sts = []st{{"client", 2 * wait, 2, 20000, 0, 0}, {"server", 2 * wait, 2, 20000, 0, 0}, {"client", wait + 20*ms, 2, 20000, 0, 0},
+			{"client", wait * 3 / 2, 8, 20000, 300 * ms, 0}, {"server", 2 * wait, 1, 40000, 0, 5 * ms}, {"client", wait - ms, 2, 20000, 0, 0},
+			{"client", 2 * wait, 1, 20000, 0, 0}, {"server", 5 * wait, 3, 100, wait / 2, 0}}
+	}
+	for _, x := range sts {
+		add(Scenario{Name: fmt.Sprintf("stall%dms-k%d", x.d/ms, x.k), Transport: "tcp", Closer: x.cl, N: 2000 + x.k*x.size, PreStall: 2000,
+			StallFor: x.d, StallWrites: x.k, StallWriteSize: x.size, CloseAt: x.at, ReadPause: x.pause})
 	}
 	return out
 }
